@@ -7,7 +7,8 @@
      LinearRegressor   sum_f x_nf coef_tf + intercept_t
      Scaler            (x - offset_f) * scale_f
 
-   with one unit roundoff per arithmetic operation. An algebraically equal formula that is
+   with one unit roundoff per arithmetic operation. float32 cases must be computed; float64 cases
+   (same formulas at 2^-53; the attributes stay float32 values) must be computed or refused. An algebraically equal formula that is
    numerically different (x*scale - offset*scale) leaves the enclosure as soon as it cancels. *)
 From Coq Require Import List ZArith Bool String.
 From V Require Import DType Tensor Case OpCheck Ival CheckC06.
@@ -20,15 +21,18 @@ Definition ffloat (n : string) (l : list attr) : option Z :=
 Definition ffloats (n : string) (l : list attr) : option (list Z) :=
   (fix go l := match l with [] => None | AFloats m v :: r => if String.eqb m n then Some v else go r | _ :: r => go r end) l.
 
-Definition w := W32.
 Definition rows {X} (r c : nat) (l : list X) : list (list X) := chunks c r l.
 Definition col {X} (d : X) (m : list (list X)) (j : nat) : list X := map (fun row => nth j row d) m.
 Definition transpose_m {X} (d : X) (r c : nat) (m : list (list X)) : list (list X) := map (col d m) (seq 0 c).
 
 (* the enclosures, one per output element in row-major order; None: not a case of this stream *)
+Definition width (c : opcase) : fw := match oc_ins c with Some x :: _ => (match dt x with Float64 => W64 | _ => W32 end) | _ => W32 end.
+Definition fdt (c : opcase) : dtype := match width c with W64 => Float64 | W32 => Float32 end.
+(* attribute floats are float32 bit patterns whatever the tensors' type *)
 Definition enclosures (c : opcase) : option (list nat * list I.type) :=
   let ins := oc_ins c in
-  let f32 (t : tval) := dtype_eqb (dt t) Float32 in
+  let w := width c in
+  let f32 (t : tval) := dtype_eqb (dt t) (fdt c) in
   if is_op (oc_op c) "MatMul" then
     match ins with
     | [Some a; Some b] =>
@@ -53,8 +57,8 @@ Definition enclosures (c : opcase) : option (list nat * list I.type) :=
             let M := if tA then a1 else a0 in let K := if tA then a0 else a1 in
             let K' := if tB then b1 else b0 in let N := if tB then b0 else b1 in
             if negb (f32 a && f32 b && Nat.eqb K K') then None else
-            let alpha := match ffloat "alpha" (oc_attrs c) with Some v => pt_of w v | None => Some ione end in
-            let beta := match ffloat "beta" (oc_attrs c) with Some v => pt_of w v | None => Some ione end in
+            let alpha := match ffloat "alpha" (oc_attrs c) with Some v => pt_of W32 v | None => Some ione end in
+            let beta := match ffloat "beta" (oc_attrs c) with Some v => pt_of W32 v | None => Some ione end in
             let cmat : option (option (list (list I.type))) :=
               match rest with
               | [] | [None] => Some None
@@ -93,11 +97,11 @@ Definition enclosures (c : opcase) : option (list nat * list I.type) :=
     match ins, ffloats "coefficients" (oc_attrs c), find_int "targets" (oc_attrs c) with
     | [Some x], Some co, tg =>
         let T := match tg with Some t => Z.to_nat t | None => 1%nat end in
-        match sh x, pts w (pl x), pts w co with
+        match sh x, pts w (pl x), pts W32 co with
         | [N; F], Some xv, Some cv =>
             if negb (f32 x && Nat.eqb (List.length cv) (T * F)) then None else
             let ic := match ffloats "intercepts" (oc_attrs c) with
-                      | Some l => match pts w l with Some v => if Nat.eqb (List.length v) T then Some v else if Nat.eqb (List.length v) 1 then Some (repeat (nth 0 v izero) T) else None | None => None end
+                      | Some l => match pts W32 l with Some v => if Nat.eqb (List.length v) T then Some v else if Nat.eqb (List.length v) 1 then Some (repeat (nth 0 v izero) T) else None | None => None end
                       | None => Some (repeat izero T) end in
             match ic with
             | Some iv =>
@@ -111,7 +115,7 @@ Definition enclosures (c : opcase) : option (list nat * list I.type) :=
   else if is_op (oc_op c) "Scaler" then
     match ins, ffloats "offset" (oc_attrs c), ffloats "scale" (oc_attrs c) with
     | [Some x], Some off, Some scl =>
-        match sh x, pts w (pl x), pts w off, pts w scl with
+        match sh x, pts w (pl x), pts W32 off, pts W32 scl with
         | [N; F], Some xv, Some ov, Some sv =>
             let fit (v : list I.type) := if Nat.eqb (List.length v) F then Some v else if Nat.eqb (List.length v) 1 then Some (repeat (nth 0 v izero) F) else None in
             match fit ov, fit sv with
@@ -134,7 +138,8 @@ Definition verdict (c : opcase) : Z :=
   | Some (shp, enc) =>
       match oc_obs c with
       | OOk [Some t] =>
-          if list_eqb Nat.eqb (sh t) shp && dtype_eqb (dt t) Float32 && all2 (fun b e => res_in w b e) (pl t) enc then 0 else 2
+          if list_eqb Nat.eqb (sh t) shp && dtype_eqb (dt t) (fdt c) && all2 (fun b e => res_in (width c) b e) (pl t) enc then 0 else 2
+      | OErr _ => match width c with W64 => 0 | W32 => 2 end   (* float64 must be computed correctly or refused *)
       | _ => 2
       end
   end.
